@@ -192,6 +192,27 @@ theorem packFinish_accepts (info : CompId → CompInfo) (t : Nat) (F : SlotState
     have hS0 : live w0 F = live st.w F := by
       have := inv.ok; rw [hevs] at this; exact Option.some.inj this
     have hshape := packFinish_shape info e isCreate initial sh st.w st.p cbs hd'
+    -- the archetype of an unchanged set is the entity's own (closed mask, unique key): staying = looking it up
+    have hT : packTarget e isCreate initial sh st.w st.p = st.w.getArch st.p.final sh := by
+      apply packTarget_eq_getArch
+      intro hic hfin pi hla
+      rcases hnc hic hd' with ⟨pi', hla', htgt, hinit, hshd⟩
+      have hlo : st.w.locOf e = w1.locOf e := by unfold WM.locOf; rw [hlocs]
+      rw [hlo, hla'] at hla
+      cases hla
+      have harch1 : ∀ a, st.w.arch a = w1.arch a := fun a => by rw [arch_def, arch_def, harchs]
+      have hpilt : pi < st.w.archs.length := by
+        rw [harchs]; exact lt_archs_of_rows htgt.idx
+      have hinit' : initial = (w1.arch pi).mask := by rw [hinit, htgt.closed]
+      have hfin' : closedMask st.w.deps st.p.final = (w1.arch pi).mask := by
+        rw [← hfin, hinit', hdeps, htgt.closed]
+      rcases getArch_cases st.w st.p.final sh with ⟨h1, hlt, hm, hs⟩ | ⟨_, _, hnone⟩
+      · refine Prod.ext h1 ?_
+        apply htgt.distinct _ (by rw [← harchs]; exact hlt)
+        · rw [← harch1, hm, hfin']
+        · rw [← harch1, hs, hshd]
+      · exact absurd ⟨by rw [harch1, hfin'], by rw [harch1, hshd]⟩ (findArch_none hnone pi hpilt)
+    have hT' : packTargetArch e isCreate initial sh st.w st.p = st.w.getArch st.p.final sh := hT
     rw [hshape.live F]
     refine ⟨?_, hshape.masksOk ?_⟩
     all_goals
@@ -203,7 +224,7 @@ theorem packFinish_accepts (info : CompId → CompInfo) (t : Nat) (F : SlotState
     -- the events
     · unfold packFinishEvents packMoved
       rw [if_neg hd, hevs, hS0]
-      simp only [List.nil_append]
+      simp only [List.nil_append, hT, hT']
       cases hic : isCreate with
       | true =>
         simp only [if_true, List.append_assoc]
@@ -329,7 +350,7 @@ theorem packFinish_accepts (info : CompId → CompInfo) (t : Nat) (F : SlotState
                 · exact ⟨(hsup x).mp (by simpa using hs), ht⟩
     -- the masks
     · unfold packMoved
-      simp only
+      simp only [hT]
       cases hic : isCreate with
       | true =>
         simp only [if_true]
